@@ -55,8 +55,8 @@ class C20(Check):
     rule = ("one large member (quick: 1.07 GiB; thorough: 0.5 / 1.5 / 4 GiB - always above the 700 MiB budget and far above the 128 MB chunk) "
             "produced by a deterministic stream source (zeros, period 7, period 64 KiB, PRNG-incompressible), alone or first/last/between small "
             "members of the solid block, under each codec family (Copy, LZMA2, LZMA, BZip2, Deflate, Deflate64, ZStandard, Brotli, PPMd) also behind "
-            "BCJ / Delta and under 7zAES; written with writef (stream) or write (real file) in one child process, then extractall(path) / "
-            "extractall(streaming WriterFactory) / testzip in another. Oracle: peak RSS growth of each child <= 700 MiB and the delivered "
+            "BCJ / Delta and under 7zAES; written with writef (stream) or write (real file) in one child process - into a new archive or appended to an existing one (mode 'a') - then extractall(path) / "
+            "extractall(streaming WriterFactory) / testzip in another, with no data-segment limit or under a finite soft RLIMIT_DATA of 4..8 GiB (ulimit -d). Oracle: peak RSS growth of each child <= 700 MiB and the delivered "
             "length and CRC-32 equal the generator's. Every case is non-trivial (member > budget); distinct by (chain, content, size, op, write "
             "API, position, AES). A watchdog expiry is inconclusive; RLIMIT_AS (6 GiB) only stops runaways.")
     assumptions = ["VmHWM of a fresh process is the measure; the address-space cap only protects the host", "sizes sampled at a few points of an unbounded axis"]
@@ -85,19 +85,23 @@ class C20(Check):
             ("Delta+LZMA2", "period7", "extract-path", "writef", "alone", False),
             ("ZStandard", "random", "extract-factory", "writef", "alone", False),
         ]
-        cases = list(quick_cases)
+        cases = [c + ("w", None) for c in quick_cases]
+        # the big member added by an append session; extraction under a finite soft RLIMIT_DATA (`ulimit -d`)
+        cases += [("LZMA2", "period64k", "extract-factory", "writef", "alone", False, "a", None), ("Copy", "random", "testzip", "write", "last", False, "a", None),
+                  ("LZMA2", "zeros", "extract-factory", "writef", "alone", False, "w", 6 << 30), ("ZStandard", "zeros", "extract-path", "writef", "alone", False, "w", 5 << 30)]
         if not env.quick:
-            cases += [("PPMd", "zeros", "extract-factory", "writef", "alone", False), ("LZMA2", "zeros", "extract-factory", "writef", "alone", True),
-                      ("Deflate64", "zeros", "extract-path", "writef", "alone", False)]
+            cases += [("PPMd", "zeros", "extract-factory", "writef", "alone", False, "w", None), ("LZMA2", "zeros", "extract-factory", "writef", "alone", True, "w", None),
+                      ("Deflate64", "zeros", "extract-path", "writef", "alone", False, "w", None)]
             for codec in CODECS:
                 for content in ("zeros", "random"):
                     for op in OPS:
-                        c = (codec, content, op, "writef", "alone", False)
+                        c = (codec, content, op, "writef", "alone", False, "w", None)
                         if c not in cases and not (content == "random" and codec in ("BZip2", "PPMd", "X86+PPMd", "ARM+BZip2", "Deflate64", "LZMA", "X86+LZMA")):
                             cases.append(c)
-        for i, (codec, content, op, wapi, position, aes) in enumerate(cases):
+        for i, (codec, content, op, wapi, position, aes, wmode, rdata) in enumerate(cases):
             if env.mine(i):
-                yield {"codec": codec, "content": content, "size_mb": big, "op": op, "wapi": wapi, "position": position, "aes": aes, "seed": i + 1}
+                yield {"codec": codec, "content": content, "size_mb": big, "op": op, "wapi": wapi, "position": position, "aes": aes, "seed": i + 1,
+                       "wmode": wmode, "rlimit_data": rdata}
 
     def strategy(self, env):
         if env.quick:
@@ -105,6 +109,7 @@ class C20(Check):
         return st.fixed_dictionaries({"codec": st.sampled_from(sorted(CODECS)), "content": st.sampled_from(["zeros", "zeros", "period7", "period64k", "random"]),
                                       "size_mb": st.sampled_from([512, 1536, 4096]), "op": st.sampled_from(OPS), "wapi": st.sampled_from(["writef", "write"]),
                                       "position": st.sampled_from(["alone", "first", "last", "middle"]), "aes": st.sampled_from([False, False, True]),
+                                      "wmode": st.sampled_from(["w", "w", "a"]), "rlimit_data": st.sampled_from([None, None, 4 << 30, 8 << 30]),
                                       "seed": st.integers(1, 999)}).filter(
             lambda c: not (c["content"] == "random" and (c["codec"] in ("BZip2", "PPMd", "X86+PPMd", "ARM+BZip2", "Deflate64", "LZMA", "X86+LZMA") or c["size_mb"] > 1536))
             and not (c["size_mb"] > 1536 and c["codec"] in ("BZip2", "ARM+BZip2", "PPMd", "X86+PPMd", "Deflate64")))
@@ -121,7 +126,9 @@ class C20(Check):
             filters.append({"id": G.F_AES})
             pw = "pw"
         size = case["size_mb"] << 20
-        out.descriptor = (case["codec"], case["content"], case["size_mb"], case["op"], case["wapi"], case["position"], case["aes"])
+        wmode, rdata = case.get("wmode", "w"), case.get("rlimit_data")
+        out.descriptor = (case["codec"], case["content"], case["size_mb"], case["op"], case["wapi"], case["position"], case["aes"], wmode, rdata)
+        out.label("wmode:" + wmode, "rlimit_data:" + ("none" if not rdata else "%dG" % (rdata >> 30)))
         out.label("codec:" + case["codec"], "content:" + case["content"], "op:" + case["op"], "wapi:" + case["wapi"], "pos:" + case["position"],
                   "aes" if case["aes"] else "plain")
         env.state["k"] += 1
@@ -132,9 +139,13 @@ class C20(Check):
             members = {"alone": [bigm], "first": [bigm] + small, "last": small + [bigm], "middle": small[:1] + [bigm] + small[1:]}[case["position"]]
             apath = os.path.join(work, "a.7z")
             spec = {"repo": REPO, "op": case["wapi"], "filters": filters, "password": pw, "archive": apath, "members": members,
-                    "srcfile": os.path.join(work, "src.bin"), "rlimit_as": CAP}
+                    "srcfile": os.path.join(work, "src.bin"), "rlimit_as": CAP, "append": wmode == "a", "rlimit_data": rdata}
             w = run_child(spec, 1700)
             sig = {"codec": case["codec"], "aes": case["aes"]}
+            if wmode == "a":
+                sig["wmode"] = "a"
+            if rdata:
+                sig["rlimit_data"] = True
             sample = {"case": case, "write": {k: w.get(k) for k in ("peak_growth_kb", "wall_s", "archive_bytes", "error")}}
             if w.get("inconclusive"):
                 out.inconclusive = "watchdog-write"
@@ -149,7 +160,7 @@ class C20(Check):
                     out.violate(dict(sig, kind="write-failed", op="write-" + case["wapi"]), observed=w.get("error"), expected="archive written")
                 out.sample = sample
                 return out
-            spec2 = {"repo": REPO, "op": case["op"], "password": pw, "archive": apath, "members": members, "dest": os.path.join(work, "out"), "rlimit_as": CAP}
+            spec2 = {"repo": REPO, "op": case["op"], "password": pw, "archive": apath, "members": members, "dest": os.path.join(work, "out"), "rlimit_as": CAP, "rlimit_data": rdata}
             r = run_child(spec2, 1700)
             sample["read"] = {k: r.get(k) for k in ("peak_growth_kb", "wall_s", "error", "testzip")}
             out.sample = sample
